@@ -162,6 +162,10 @@ def runaway(after):
 
 
 def apply_move(pas, move):
+    """what happens to the arrays between two updates of the SAME domain
+    manager: real particles move, change h, are removed (outlet) and new real
+    particles are appended with ParticleArray.add_particles (inlet, splitting).
+    The manager and its NNPSParticleArrayWrappers are never rebuilt."""
     for pa, mv in zip(pas, move):
         tag = pa.get_carray('tag').get_npy_array()
         idx = [i for i in range(len(tag)) if tag[i] != GHOST]
@@ -175,6 +179,18 @@ def apply_move(pas, move):
             for j, i in enumerate(idx):
                 if j < len(mv['hs']):
                     h[i] *= mv['hs'][j]
+        if mv.get('rm'):
+            rm = sorted(set(idx[j] for j in mv['rm'] if j < len(idx)))
+            if rm:
+                pa.remove_particles(np.array(rm, dtype=int))
+        ad = mv.get('add')
+        if ad and len(ad['tag']):
+            kw = {k: np.array(ad['cols'][k], dtype=float) for k in NAMED + ('m', 'rho', 'q')}
+            kw['pidx'] = np.array(ad['cols']['pidx'], dtype=int)
+            kw['tag'] = np.array(ad['tag'], dtype=int)
+            if 's2' in pa.properties:
+                kw['s2'] = np.array(ad.get('s2') or [0.5] * (2 * len(ad['tag'])), dtype=float)
+            pa.add_particles(**kw)
 
 
 # --------------------------------------------------------------------------
@@ -382,6 +398,10 @@ def oracle_round(case, rnd, cols, defaults, R, rno):
         rs = F(case['rs'])
         dst = [vals for aft in after_reals for t, vals in aft
                if all(lo[k] <= vals[k] <= hi[k] for k in range(3) if per[k])]
+        # float pre-filter (the exact test below decides; the margin is far
+        # above the rounding error of these dyadic numbers)
+        dstf = [(float(p[0]), float(p[1]), float(p[2]), float(p[6])) for p in dst]
+        rsf = float(rs)
         rng = [(-2, -1, 0, 1, 2) if per[k] else (0,) for k in range(3)]
         for i in range(narr):
             have = set(tuple(F(v) for v in vals[:3]) for t, vals in rnd['after'][i] if t == GHOST)
@@ -394,7 +414,13 @@ def oracle_round(case, rnd, cols, defaults, R, rno):
                     qi = tuple(q[k] + abc[k] * L[k] for k in range(3))
                     if qi in have:
                         continue
-                    for p in dst:
+                    qf = (float(qi[0]), float(qi[1]), float(qi[2]))
+                    hq = float(q[6])
+                    for p, pf in zip(dst, dstf):
+                        radf = rsf * max(pf[3], hq)
+                        if (pf[0] - qf[0]) ** 2 + (pf[1] - qf[1]) ** 2 + (pf[2] - qf[2]) ** 2 \
+                                > radf * radf * 1.000001 + 1e-300:
+                            continue
                         rad = rs * max(p[6], q[6])
                         d2 = sum((p[k] - qi[k]) ** 2 for k in range(3))
                         if d2 < rad * rad:
@@ -486,57 +512,66 @@ def gen_case(rng, big=False, mode='Q', force=None):
     via_nnps = False
     arrays = []
     tiny = 2.0 ** -10
+
+    def new_cols():
+        return {k: [] for k in NAMED + ('m', 'rho', 'pidx', 'q')}
+
+    def gen_row(colsd, pidx, j):
+        """one particle: inside, on a face, at / next to the layer thresholds,
+        outside the box by less than, exactly, or more than a period"""
+        for k in range(3):
+            lo, hi, Lk = box[2 * k], box[2 * k + 1], Ls[k]
+            if k >= dim:
+                # (a dim-D neighbour search must not see other coordinates)
+                v = 0.0 if via_nnps or rng.random() < 0.7 else dy(rng, -1, 1)
+            elif mode == 'F':
+                r = rng.random()
+                if r < 0.35:
+                    v = rng.uniform(lo, hi)
+                elif r < 0.6:
+                    v = rng.uniform(lo, lo + 1.2 * delta)
+                elif r < 0.85:
+                    v = rng.uniform(hi - 1.2 * delta, hi)
+                else:
+                    v = rng.choice([rng.uniform(lo - 0.9 * Lk, lo), rng.uniform(hi, hi + 0.9 * Lk)])
+            else:
+                r = rng.random()
+                if r < 0.25:
+                    v = lo + dy(rng, 0, Lk)
+                elif r < 0.40:
+                    v = rng.choice([lo, hi])
+                elif r < 0.55:
+                    v = rng.choice([lo + delta, hi - delta])
+                elif r < 0.67:
+                    v = rng.choice([lo + delta + tiny, hi - delta - tiny,
+                                    lo + delta - tiny, hi - delta + tiny])
+                elif r < 0.80:
+                    v = rng.choice([lo + dy(rng, 0, min(delta, Lk)), hi - dy(rng, 0, min(delta, Lk))])
+                elif r < 0.95:
+                    fr = rng.choice([1 / 64, 1 / 4, 1 / 2, 63 / 64])
+                    v = rng.choice([lo - fr * Lk, hi + fr * Lk])
+                elif r < 0.98:
+                    v = rng.choice([lo - Lk, hi + Lk])      # exactly one period out
+                else:
+                    v = rng.choice([lo - 1.5 * Lk, hi + 1.25 * Lk])
+            colsd[AX[k]].append(float(v))
+        for k in VEL:
+            colsd[k].append(dy(rng, -4, 4, 8) if mode == 'Q' else rng.uniform(-3, 3))
+        if mode == 'Q':
+            colsd['h'].append(hmax * rng.choice([1, 1, 0.5, 0.75, 0.25]))
+        else:
+            colsd['h'].append(hmax * rng.uniform(0.3, 1.0))
+        colsd['m'].append(dy(rng, 0, 2, 16))
+        colsd['rho'].append(1.0 + j)
+        colsd['pidx'].append(pidx)
+        colsd['q'].append(dy(rng, -1, 1, 4))
+
     for ai in range(narr):
         nmax = 12 if big else 7
-        n = 0 if rng.random() < 0.08 else rng.randint(1, nmax)
-        colsd = {k: [] for k in NAMED + ('m', 'rho', 'pidx', 'q')}
+        n = 0 if rng.random() < 0.10 else rng.randint(1, nmax)
+        colsd = new_cols()
         for j in range(n):
-            for k in range(3):
-                lo, hi, Lk = box[2 * k], box[2 * k + 1], Ls[k]
-                if k >= dim:
-                    # (a dim-D neighbour search must not see other coordinates)
-                    v = 0.0 if via_nnps or rng.random() < 0.7 else dy(rng, -1, 1)
-                elif mode == 'F':
-                    r = rng.random()
-                    if r < 0.35:
-                        v = rng.uniform(lo, hi)
-                    elif r < 0.6:
-                        v = rng.uniform(lo, lo + 1.2 * delta)
-                    elif r < 0.85:
-                        v = rng.uniform(hi - 1.2 * delta, hi)
-                    else:
-                        v = rng.choice([rng.uniform(lo - 0.9 * Lk, lo), rng.uniform(hi, hi + 0.9 * Lk)])
-                else:
-                    r = rng.random()
-                    if r < 0.25:
-                        v = lo + dy(rng, 0, Lk)
-                    elif r < 0.40:
-                        v = rng.choice([lo, hi])
-                    elif r < 0.55:
-                        v = rng.choice([lo + delta, hi - delta])
-                    elif r < 0.67:
-                        v = rng.choice([lo + delta + tiny, hi - delta - tiny,
-                                        lo + delta - tiny, hi - delta + tiny])
-                    elif r < 0.80:
-                        v = rng.choice([lo + dy(rng, 0, min(delta, Lk)), hi - dy(rng, 0, min(delta, Lk))])
-                    elif r < 0.95:
-                        fr = rng.choice([1 / 64, 1 / 4, 1 / 2, 63 / 64])
-                        v = rng.choice([lo - fr * Lk, hi + fr * Lk])
-                    elif r < 0.98:
-                        v = rng.choice([lo - Lk, hi + Lk])      # exactly one period out
-                    else:
-                        v = rng.choice([lo - 1.5 * Lk, hi + 1.25 * Lk])
-                colsd[AX[k]].append(float(v))
-            for k in VEL:
-                colsd[k].append(dy(rng, -4, 4, 8) if mode == 'Q' else rng.uniform(-3, 3))
-            if mode == 'Q':
-                colsd['h'].append(hmax * rng.choice([1, 1, 0.5, 0.75, 0.25]))
-            else:
-                colsd['h'].append(hmax * rng.uniform(0.3, 1.0))
-            colsd['m'].append(dy(rng, 0, 2, 16))
-            colsd['rho'].append(1.0 + j)
-            colsd['pidx'].append(1000 * ai + j)
-            colsd['q'].append(dy(rng, -1, 1, 4))
+            gen_row(colsd, 1000 * ai + j, j)
         tag = [0] * n
         align = True
         if n and rng.random() < 0.07:
@@ -571,11 +606,20 @@ def gen_case(rng, big=False, mode='Q', force=None):
             # a dict entry None means "all properties" for that array
             pass
     nrounds = rng.choice([0, 1, 1, 2, 3])
+    if nrounds == 0 and any(len(a['tag']) == 0 for a in arrays) and rng.random() < 0.7:
+        nrounds = rng.choice([1, 2])
+    # the population of REAL particles changes between updates of the same
+    # manager: an inlet / splitting appends rows (add_particles), an outlet
+    # removes rows; an array that was empty when the manager was built is
+    # filled later
+    nreal = [sum(1 for t in a['tag'] if t != GHOST) for a in arrays]
+    was_empty = [len(a['tag']) == 0 for a in arrays]
+    nadded = [0] * len(arrays)
     moves = []
     for r_ in range(nrounds):
         mv = []
-        for a in arrays:
-            n = len(a['tag'])
+        for ai, a in enumerate(arrays):
+            n = nreal[ai]
             d = []
             for j in range(n):
                 dd = [0.0, 0.0, 0.0]
@@ -590,6 +634,20 @@ def gen_case(rng, big=False, mode='Q', force=None):
             m = {'d': d}
             if rng.random() < 0.25:
                 m['hs'] = [rng.choice([1.0, 0.5, 2.0, 1.0]) for _ in range(n)]
+            if n and rng.random() < 0.2:
+                m['rm'] = sorted(set(rng.randrange(n) for _ in range(rng.choice([1, 1, 2, n]))))
+                n -= len(m['rm'])
+            if rng.random() < (0.8 if was_empty[ai] and nadded[ai] == 0 else 0.35):
+                na = rng.choice([1, 1, 2, 3, 5 if big else 3])
+                colsd = new_cols()
+                for j in range(na):
+                    gen_row(colsd, 1000 * ai + 100 * (r_ + 1) + j, nadded[ai] + j)
+                m['add'] = {'tag': [0] * na, 'cols': colsd}
+                if a.get('s2') is not None:
+                    m['add']['s2'] = [dy(rng, -2, 2, 8) for _ in range(2 * na)]
+                n += na
+                nadded[ai] += na
+            nreal[ai] = n
             mv.append(m)
         moves.append(mv)
     case = {'mode': mode, 'dim': dim, 'kind': kind, 'width': width, 'box': box, 'per': per, 'mir': mir,
@@ -625,6 +683,27 @@ def corpus():
                     arrays=[arr('a0', [[0.0, 0.0, 0.0], [1 / 8, 7 / 8, 0.0], [1 / 8 + 2.0 ** -10, 0.5, 0.0],
                                        [1.0, 1.0, 0.0], [-0.25, 1.25, 0.0]])],
                     moves=[[{'d': [[0.5, 0.5, 0.0]] * 5}]]))
+    # seed2-B: the box-wrap loop ran over the particle count cached when the
+    # manager was built -> a particle appended later (inlet) and stored at an
+    # index >= the original length is never wrapped back into the box
+    def added(pts, base_):
+        a = arr('_', pts, base_)
+        return {'tag': a['tag'], 'cols': a['cols']}
+    perxy = dict(base, kind='per', per=[True, True, False], mir=[False] * 3, nl=1.0)
+    out.append(dict(perxy, arrays=[arr('a0', [[0.5, 0.5, 0.0]])],
+                    moves=[[{'d': [[0.0, 0.0, 0.0]], 'add': added([[1.0 + 1 / 32, 0.5, 0.0]], 100)}]]))
+    # ... an array that was EMPTY when the manager was built and is filled later:
+    # its particle left through y = 0 next to the x = 0 face (wrap + 3 images)
+    out.append(dict(perxy, arrays=[arr('a0', [[0.5, 0.5, 0.0]]), arr('a1', [], 1000)],
+                    moves=[[{'d': [[0.0, 0.0, 0.0]]},
+                            {'d': [], 'add': added([[1 / 16, -1 / 32, 0.0]], 1100)}]]))
+    # ... through LinkedListNNPS.update_domain(), with an outlet removing a row
+    # first and a second round in which an added particle leaves through a corner
+    out.append(dict(perxy, via_nnps=True,
+                    arrays=[arr('a0', [[0.25, 0.25, 0.0], [0.5, 0.5, 0.0], [15 / 16, 0.75, 0.0]])],
+                    moves=[[{'d': [[0.0, 0.0, 0.0]] * 3, 'rm': [0],
+                             'add': added([[-1 / 32, 0.5, 0.0], [0.5, 0.25, 0.0]], 100)}],
+                           [{'d': [[0.0, 0.0, 0.0], [0.0, 0.0, 0.0], [0.0, 0.0, 0.0], [0.53125, 0.78125, 0.0]]}]]))
     return out
 
 
@@ -678,6 +757,20 @@ def check_cases(cases, R, sample_from=0):
                           for (tb, vb), (ta, va) in zip([r for r in rb if r[0] != GHOST], ra)
                           if vb[:3] != va[:3])
             R.count('particles-wrapped', wrapped)
+        for mv in c['moves']:
+            for ai, m in enumerate(mv):
+                if m.get('rm'):
+                    R.count('history:real-particles-removed', len(m['rm']))
+                ad = m.get('add')
+                if ad:
+                    R.count('history:real-particles-added', len(ad['tag']))
+                    if not c['arrays'][ai]['tag']:
+                        R.count('history:added-to-array-empty-at-build')
+                    b = c['box']
+                    R.count('history:added-outside-periodic-box', sum(
+                        1 for j in range(len(ad['tag']))
+                        if any(c['per'][k] and not b[2 * k] <= ad['cols'][AX[k]][j] <= b[2 * k + 1]
+                               for k in range(3))))
         R.count('mode:' + c['mode'])
         R.count('kind:' + c['kind'])
         R.count('dim:%d' % c['dim'])
@@ -693,12 +786,22 @@ def check_cases(cases, R, sample_from=0):
                if ci < sample_from else None)
 
 
+def check_many(cases, R, sample_from=0, chunk=150):
+    """check_cases in chunks: the per-case gc.collect() (see gen_case) costs time
+    proportional to the live heap, so results of earlier chunks are dropped
+    before the next one runs"""
+    for i in range(0, len(cases), chunk):
+        check_cases(cases[i:i + chunk], R, sample_from=sample_from if i == 0 else 0)
+
+
 def main():
     a = H.args()
     R = H.Result(
         'case = box + periodic/mirror flags per axis (1-3 D) + n_layers + radius_scale + copied-property '
         'subset + 1-3 particle arrays (0-12 particles, points on faces, at and next to the layer '
-        'thresholds, outside the box, in corners, variable h) + 0-3 move-then-update rounds; every '
+        'thresholds, outside the box, in corners, variable h) + 0-3 rounds on the SAME manager, each: move / '
+        'rescale h / remove real particles / append new real particles (add_particles; also to arrays that '
+        'were empty when the manager was built), then update; every '
         'update of every case is one model-vs-code comparison; distinct = distinct case JSON; '
         'non-trivial = at least one real particle and at least one ghost created')
     if a.replay:
@@ -712,13 +815,13 @@ def main():
     check_cases(corpus(), R, sample_from=1)
     R.count('corpus', len(corpus()))
     nq, nf = (700, 200) if quick else (6000, 1500)
-    check_cases([gen_case(rng, big=not quick, mode='Q') for _ in range(nq)], R, sample_from=2)
-    check_cases([gen_case(rng, big=not quick, mode='F') for _ in range(nf)], R, sample_from=1)
+    check_many([gen_case(rng, big=not quick, mode='Q') for _ in range(nq)], R, sample_from=2)
+    check_many([gen_case(rng, big=not quick, mode='F') for _ in range(nf)], R, sample_from=1)
     if a.broken or R.d['disagreements']:
         rng2 = random.Random(a.seed + 4242)
         extra = 600 if quick else 3000
-        check_cases([gen_case(rng2, big=True, mode='Q',
-                              force=rng2.choice(['per', 'mir', 'mix'])) for _ in range(extra)], R)
+        check_many([gen_case(rng2, big=True, mode='Q',
+                             force=rng2.choice(['per', 'mir', 'mix'])) for _ in range(extra)], R)
         R.d['search'] = {'extra_cases': extra, 'found': len(R.d['property_failures'])}
     R.write(a.out)
 
